@@ -1,10 +1,13 @@
 #!/bin/bash
 # try_seed.sh <seed_id> <prop> [<prop>...] : apply a seeded change to /repo, run the checks, undo it.
+# Evidence files are saved and restored: evidence must only ever describe runs on the unchanged tree.
 sid=$1; shift
 cd /verif
 git -C /repo apply /verif/seeded/$sid/patch.diff || exit 3
 for p in "$@"; do
+  cp evidence/$p.json /tmp/evidence_$p.bak 2>/dev/null
   ./check $p --tier quick > /tmp/try_${sid}_$p.log 2>&1; echo "$sid $p rc=$? $(grep -c VIOLATION /tmp/try_${sid}_$p.log) violation lines: $(grep VIOLATION /tmp/try_${sid}_$p.log | head -1)"
+  cp /tmp/evidence_$p.bak evidence/$p.json 2>/dev/null
 done
 git -C /repo checkout -- .
 git -C /repo status --short | head
